@@ -329,6 +329,17 @@ def stepLine (st : St) (line : String) : St × String :=
     match parsePacket seq src dst relay port data with
     | some p => runOp st c (st.u.addPacket p) (.ksend c p)
     | none => bad
+  | ["kwack", c, seq, src, dst, relay, port, data, ack] =>
+    -- a module calling `WriteAcknowledgement` directly (asynchronous acknowledgement)
+    match parsePacket seq src dst relay port data, parseData ack with
+    | some p, some a =>
+      let before := st.w c
+      let r := before.core.writeAck H p a
+      let after : State := { before with core := r.1 }
+      let w' : World := fun x => if x = c then after else st.w x
+      let u := st.u.addPacket p
+      ({ w := w', u := u }, s!"res={r.2.toString} | {newEvents before after} | {dump u after}")
+    | _, _ => bad
   | ["client", c, q, h, t, period] =>
     match h.toNat?, t.toNat?, period.toNat? with
     | some h, some t, some pd => runOp st c { st.u with names := addU st.u.names q } (.createClient c q h t pd)
